@@ -439,23 +439,43 @@ func checkMatch(c matchCase) harness.Outcome {
 		o.Classes = append(o.Classes, "compared:partial-or-none")
 	}
 
-	js := "(function(){var re;try{re=" + ctorExpr(c.Src, c.Flags, c.Form) + "}catch(e){__r.push('ctor-throw',e.name);return}\n" +
-		"try{__res(re.exec(" + harness.JSString16(c.Subject) + "));__li(re)}catch(e){__r.push('exec-throw',e.name)}})()"
-	toks, bad := runTokens(js)
-	what := fmt.Sprintf("%s on %s", ctorExpr(c.Src, c.Flags, c.Form), harness.JSString16(c.Subject))
-	if bad != "" {
-		if level == cmpNone && !strings.HasPrefix(bad, "panic:") {
+	// The pattern is submitted in the drawn form and, whenever it can be spelled that way, also in the
+	// other family (literal <-> constructor): both must agree with the model (7.8.5 + 15.10.4.1).
+	formsToRun := []string{c.Form}
+	if c.Form == "lit" || c.Form == "evallit" {
+		formsToRun = append(formsToRun, "new")
+	} else if literalSafe(c.Src) && flagsLiteralSafe(c.Flags) {
+		formsToRun = append(formsToRun, "evallit")
+		o.Classes = append(o.Classes, "also-as-literal")
+	}
+	for _, form := range formsToRun {
+		if done := checkMatchForm(&o, c, form, mr, re, level); done {
 			return o
 		}
-		o.Fail = fmt.Sprintf("%s: %s; a pattern of the portable subset must be accepted (15.10.1) and exec must work", what, bad)
-		return o
+	}
+	return o
+}
+
+// checkMatchForm runs one syntactic form of the case; it reports true when o is final (failure or
+// nothing comparable).
+func checkMatchForm(o *harness.Outcome, c matchCase, form string, mr *m10.MatchResult, re *m10.RegExp, level int) bool {
+	js := "(function(){var re;try{re=" + ctorExpr(c.Src, c.Flags, form) + "}catch(e){__r.push('ctor-throw',e.name);return}\n" +
+		"try{__res(re.exec(" + harness.JSString16(c.Subject) + "));__li(re)}catch(e){__r.push('exec-throw',e.name)}})()"
+	toks, bad := runTokens(js)
+	what := fmt.Sprintf("%s on %s", ctorExpr(c.Src, c.Flags, form), harness.JSString16(c.Subject))
+	if bad != "" {
+		if level == cmpNone && !strings.HasPrefix(bad, "panic:") {
+			return true
+		}
+		o.Fail = fmt.Sprintf("%s: %s; a pattern of the portable subset must be accepted (15.10.1, 7.8.5) and exec must work", what, bad)
+		return true
 	}
 	if len(toks) >= 1 && (toks[0] == tokS("ctor-throw") || toks[0] == tokS("exec-throw")) {
 		if level == cmpNone {
-			return o
+			return true
 		}
-		o.Fail = fmt.Sprintf("%s: %s; a pattern of the portable subset must be accepted (15.10.1) and exec must work", what, show(toks))
-		return o
+		o.Fail = fmt.Sprintf("%s: %s; a pattern of the portable subset must be accepted (15.10.1, 7.8.5) and exec must work", what, show(toks))
+		return true
 	}
 	// split off the lastIndex record
 	cut := -1
@@ -466,11 +486,11 @@ func checkMatch(c matchCase) harness.Outcome {
 	}
 	if cut < 0 || len(toks) != cut+4 {
 		o.Fail = fmt.Sprintf("%s: unreadable result %s", what, show(toks))
-		return o
+		return true
 	}
 	if msg := compareExecTokens(toks[:cut], mr, c.Subject, level); msg != "" {
 		o.Fail = what + ": " + msg
-		return o
+		return true
 	}
 	// lastIndex after one exec from 0 (15.10.6.2 step 11 / 9.a)
 	if level >= cmpOverall {
@@ -482,9 +502,10 @@ func checkMatch(c matchCase) harness.Outcome {
 			o.Excluded = append(o.Excluded, kLIBytes)
 		} else if toks[cut+1] != tokS("number") || toks[cut+2] != tokNum(wantLI) {
 			o.Fail = fmt.Sprintf("%s: lastIndex after exec is %s %s, ES5 15.10.6.2 gives %v", what, toks[cut+1], toks[cut+2], wantLI)
+			return true
 		}
 	}
-	return o
+	return false
 }
 
 func allASCII(u []uint16) bool {
@@ -506,7 +527,7 @@ func genMatchCase(unicode bool) func(t *rapid.T) matchCase {
 	}
 }
 
-const matchRule = "rapid: pattern tree over the portable subset (depth<=3; literals a b c A 1 _ space - . \\n \\t, escapes \\d\\D\\w\\W \\b\\B \\t\\n \\xHH \\uHHHH \\cX identity escapes, classes with ranges/negation/escapes, greedy+lazy * + ? {n} {n,} {n,m}, (…) (?:…), |, ^ $, flags g i m in any order) rendered as new RegExp(src,flags) / RegExp(src,flags) / literal; subject <= 8 units, 70% derived from the pattern (a string it matches, in random context, sometimes damaged) and 30% random; compared with the 15.10.2 backtracking matcher: index, input, length, every capture, lastIndex. non-trivial = pattern has >= 2 construct kinds among {class, quantifier, group, alternation, anchor/boundary, escape} and the subject matches or nearly matches (the model did real work); distinct by (source, flags, form, subject)"
+const matchRule = "rapid: pattern tree over the portable subset (depth<=3; literals a b c A 1 _ space - . \\n \\t, escapes \\d\\D\\w\\W \\b\\B \\t\\n \\xHH \\uHHHH \\cX identity escapes, classes with ranges/negation/escapes, greedy+lazy * + ? {n} {n,} {n,m}, (…) (?:…), |, ^ $, flags g i m in any order) rendered as new RegExp(src,flags) / RegExp(src,flags) / literal; subject <= 8 units, 70% derived from the pattern (a string it matches, in random context, sometimes damaged) and 30% random; every case is submitted in the drawn form and also in the other family (constructor <-> literal via eval) whenever the source can be spelled as a RegularExpressionLiteral (7.8.5); one class in ten is built from the delimiter-sensitive atoms \\] \\\\ / \\/ [ \\[ \\- ^ in random order; compared with the 15.10.2 backtracking matcher: index, input, length, every capture, lastIndex. non-trivial = pattern has >= 2 construct kinds among {class, quantifier, group, alternation, anchor/boundary, escape} and the subject matches or nearly matches (the model did real work); distinct by (source, flags, form, subject)"
 
 var matchASCII = harness.Register(&harness.Facet[matchCase]{
 	Name:     "match-ascii",
